@@ -13,7 +13,7 @@ use serde_json::{Value, json};
 
 use crate::lab::Rng;
 
-fn pool(ty: &str, rng: &mut Rng, extra: usize) -> Vec<DataValue> {
+pub(crate) fn pool(ty: &str, rng: &mut Rng, extra: usize) -> Vec<DataValue> {
     let mut v: Vec<DataValue> = match ty {
         "bool" => vec![DataValue::Bool(false), DataValue::Bool(true)],
         "int16" => [0i16, 1, -1, i16::MAX, i16::MIN, 7].iter().map(|x| DataValue::Int16(*x)).collect(),
